@@ -16,7 +16,7 @@ def guard (impl : String) : String :=
 
 def owner (op : String) : Option Runner :=
   match op with
-  | "dec" | "cdec" | "ccdec" | "cb" => some C01.run
+  | "dec" | "cdec" | "ccdec" | "cb" | "addr" => some C01.run
   | "wifdec" => some C06.run
   | "xkey" => some C05.run
   | "b58dec" | "chkdec" | "bechdec" => some C07.run
